@@ -3066,4 +3066,10 @@ pub mod verif_gc {
     pub fn heap_bytes(t: &VmGreenThread) -> (usize, usize) {
         (t.heap_size, t.heap_list.len())
     }
+
+    /// the bytes the heap list actually accounts for (sum of `nbytes` over `heap_list`), to be compared
+    /// with the running total `heap_size` that paces the collector
+    pub fn heap_recount(t: &VmGreenThread) -> usize {
+        t.heap_list.iter().map(|h| unsafe { &**h }.nbytes()).sum()
+    }
 }
